@@ -188,7 +188,7 @@ def install():
             after = self.current_state
             with _LOCK:
                 rec = dict(seq=_next(), assoc=id(assoc), role=role, before=before, event=event, action=action,
-                           after=after, exc=(type(exc).__name__ if exc else None))
+                           after=after, exc=(type(exc).__name__ if exc else None), t=time.time())
                 State.fsm.append(rec)
                 State.pair_counts[(before, event)] = State.pair_counts.get((before, event), 0) + 1
                 if action is None:
